@@ -336,7 +336,7 @@ def _validate(spec, v, env):
     if k == "Secure":
         if isinstance(v, str):
             return v
-        raise _Undef("SecureField declares no constraint on non-strings")
+        raise Rej("not a string")
     if k == "List":
         if not isinstance(v, (list, tuple)):
             raise Rej("not a list")
